@@ -80,7 +80,7 @@ class C18(Cfg):
         res = []
         for op, out in zip(ops[1:], outs[1:]):
             k, a = kv(op)
-            if out in ("ok", "skip"): continue
+            if out in ("ok", "skip", "dead"): continue
             if out == "bad-op":
                 res.append(("malformed", op)); break
             p = parse_obs(out)
